@@ -142,8 +142,10 @@ Proof.
       * apply Z.eqb_eq in Ek. subst k. cbn [step spec_step]. rewrite Z.eqb_refl.
         rewrite (new_log_some _ Hsz). cbn [fst snd option_map]. split; auto.
         destruct HR as [H1 H2 H3]. constructor; cbn [ss_arr ss_cnt g_logs g_keys g_cnts]; auto.
-        split; [constructor|]. split; [rewrite has_ins, Z.eqb_refl; reflexivity|].
-        eexists. split; [apply new_log_some; exact Hsz|]. rewrite upd_same. reflexivity.
+        -- split; [constructor|]. split; [rewrite has_ins, Z.eqb_refl; reflexivity|].
+           eexists. split; [apply new_log_some; exact Hsz|]. rewrite upd_same. reflexivity.
+        -- intros x. rewrite upd_same. reflexivity.
+        -- intros x. lia.
       * apply Hother; cbn [concerns spec_step]; rewrite Ek; auto.
     + split; [exact HR|reflexivity].
   - (* Unbind *)
@@ -218,7 +220,7 @@ Qed.
 Lemma spec_step_ok st o : ss_ok st -> ss_ok (fst (spec_step c s st o)).
 Proof.
   intros H. destruct o as [k nk|k|k q ok|]; cbn [spec_step].
-  - destruct nk; [|exact H]. destruct (k =? s); exact H.
+  - destruct nk; [|exact H]. destruct (k =? s); [|exact H]. intros x; cbn; lia.
   - destruct (k =? s); [|exact H]. intros x; cbn; lia.
   - destruct ok; [|exact H]. destruct (k =? s); [|exact H]. destruct (ss_arr st); exact H.
   - destruct (ss_arr st); [|exact H]. cbn [fst]. intros x. cbn [ss_cnt]. apply spec_tick_range. exact H.
@@ -296,7 +298,7 @@ Lemma n_ticks_cons o tl : n_ticks (o :: tl) = if is_tick o then S (n_ticks tl) e
 Proof. unfold n_ticks. cbn [filter]. destruct (is_tick o); reflexivity. Qed.
 
 Lemma spec_stream_limit_exact x : 0 < c_max c -> forall ops st, ss_ok st ->
-  forallb (fun o => negb (is_unbind_of s o)) ops = true ->
+  forallb (fun o => negb (ends_binding_of s o)) ops = true ->
   (forall a, In a (own_arrivals s (ss_arr st) ops) ->
      exists l, a = Some l /\ In x (spec_missing (c_size c) (c_skip c) (s_add_all None l))) ->
   req_count x (spec_stream c s st ops) = Z.min (Z.of_nat (n_ticks ops)) (c_max c - ss_cnt st x).
@@ -309,13 +311,15 @@ Proof.
     specialize (IH (fst (spec_step c s st o)) Hok' Hnu2). rewrite Ha in IH.
     cbn [spec_stream]. rewrite n_ticks_cons.
     destruct o as [k nk|k|k q ok|]; cbn [is_tick].
-    + assert (Hc : ss_cnt (fst (spec_step c s st (Bind k nk))) = ss_cnt st)
-        by (cbn [spec_step]; destruct nk; auto; destruct (k =? s); auto).
+    + assert (Hks : nk && (k =? s) = false)
+        by (cbn [ends_binding_of] in Hnu1; destruct nk; [destruct (k =? s); [discriminate|]|]; reflexivity).
+      assert (Hc : ss_cnt (fst (spec_step c s st (Bind k nk))) = ss_cnt st)
+        by (cbn [spec_step]; destruct nk; auto; destruct (k =? s); [discriminate|auto]).
       assert (Hs : snd (spec_step c s st (Bind k nk)) = None)
         by (cbn [spec_step]; destruct nk; auto; destruct (k =? s); auto).
       rewrite Hs. rewrite Hc in IH. apply IH. intros a Hain. apply Hin.
       destruct nk; exact Hain.
-    + cbn [is_unbind_of] in Hnu1. destruct (k =? s) eqn:Ek; [discriminate|].
+    + cbn [ends_binding_of] in Hnu1. destruct (k =? s) eqn:Ek; [discriminate|].
       cbn [spec_step] in *. rewrite Ek in *. cbn [fst snd] in *. apply IH.
       intros a Hain. apply Hin. cbn [own_arrivals]. rewrite Ek. exact Hain.
     + assert (Hc : ss_cnt (fst (spec_step c s st (Arrive k q ok))) = ss_cnt st)
@@ -356,7 +360,7 @@ Proof.
 Qed.
 
 Lemma spec_stream_limit x : 0 < c_max c -> forall ops st, ss_ok st ->
-  forallb (fun o => negb (is_unbind_of s o)) ops = true ->
+  forallb (fun o => negb (ends_binding_of s o)) ops = true ->
   (forall a, In a (own_arrivals s (ss_arr st) ops) ->
      exists l, a = Some l /\ In x (spec_missing (c_size c) (c_skip c) (s_add_all None l))) ->
   req_count x (spec_stream c s st ops) <= c_max c - ss_cnt st x.
@@ -442,7 +446,7 @@ Proof. intros <-. rewrite skipn_app, skipn_all, Nat.sub_diag. reflexivity. Qed.
    prefix `pre`) that contains no Unbind of s and at every tick of which x is in the missing
    list of s's own arrivals, x is requested at most maxNacksPerPacket times *)
 Theorem generator_nack_limit pre mid x : 0 < c_max c -> ops_u16 (pre ++ mid) ->
-  forallb (fun o => negb (is_unbind_of s o)) mid = true ->
+  forallb (fun o => negb (ends_binding_of s o)) mid = true ->
   (forall a, In a (skipn (n_ticks pre) (own_missing c s (pre ++ mid))) -> exists m, a = Some m /\ In x m) ->
   req_count x (skipn (n_ticks pre) (map (out_for s) (run c gen_init (pre ++ mid)))) <= c_max c.
 Proof.
@@ -470,27 +474,26 @@ Proof.
   induction ops as [|o tl IH]; intros st H; [exact H|]. cbn [spec_final]. apply IH, spec_step_clean, H.
 Qed.
 
-(* ... and exactly min(limit, number of ticks) times when the stretch starts with s not bound
-   (so the stretch contains the BindRemoteStream of s and x is missing at every tick since) *)
-Theorem generator_nack_limit_exact_fresh pre mid x : 0 < c_max c -> ops_u16 (pre ++ mid) ->
-  forallb (fun o => negb (is_unbind_of s o)) mid = true ->
-  arr_after s None pre = None ->
-  (forall a, In a (skipn (n_ticks pre) (own_missing c s (pre ++ mid))) -> exists m, a = Some m /\ In x m) ->
-  req_count x (skipn (n_ticks pre) (map (out_for s) (run c gen_init (pre ++ mid)))) =
+(* ... and exactly min(limit, number of ticks) times over the stretch that follows a
+   BindRemoteStream of s (x is missing at every tick since the bind) *)
+Theorem generator_nack_limit_exact_fresh pre mid x : 0 < c_max c -> ops_u16 (pre ++ Bind s true :: mid) ->
+  forallb (fun o => negb (ends_binding_of s o)) mid = true ->
+  (forall a, In a (skipn (n_ticks pre) (own_missing c s (pre ++ Bind s true :: mid))) ->
+     exists m, a = Some m /\ In x m) ->
+  req_count x (skipn (n_ticks pre) (map (out_for s) (run c gen_init (pre ++ Bind s true :: mid)))) =
   Z.min (Z.of_nat (n_ticks mid)) (c_max c).
 Proof.
-  intros Hmx Hu Hnu Hunb Hin.
+  intros Hmx Hu Hnu Hin.
   rewrite generator_requests_exactly_missing by exact Hu.
   rewrite spec_stream_app, skipn_app_exact by apply spec_stream_length.
-  assert (Hok0 : ss_ok ss_init) by (intros y; cbn; lia).
-  pose proof (spec_final_ok pre ss_init Hok0) as Hok.
-  assert (Hcl : ss_clean (spec_final ss_init pre)) by (apply spec_final_clean; intros _ y; reflexivity).
+  cbn [spec_stream spec_step]. rewrite Z.eqb_refl. cbn [fst snd].
   rewrite spec_stream_limit_exact; auto.
-  - rewrite Hcl by (rewrite spec_final_arr; exact Hunb). lia.
-  - intros a Ha.
+  - cbn [ss_cnt]. lia.
+  - intros y; cbn; lia.
+  - intros a Ha. cbn [ss_arr] in Ha.
     unfold own_missing in Hin. rewrite own_arrivals_app, map_app, skipn_app_exact in Hin
       by (rewrite map_length; apply own_arrivals_length).
-    rewrite spec_final_arr in Ha. cbn [ss_init ss_arr] in Ha.
+    cbn [own_arrivals] in Hin. rewrite Z.eqb_refl in Hin.
     destruct (Hin (option_map (fun l => spec_missing (c_size c) (c_skip c) (s_add_all None l)) a))
       as (m & Em & Hx); [apply in_map; exact Ha|].
     destruct a as [l|]; [|discriminate]. exists l. split; auto. cbn [option_map] in Em.
